@@ -32,6 +32,16 @@ def scenarios():
                             dict(op="open", path="la", oflags=O["PATH"] | O["NOFOLLOW"], **A), dict(op="open", path="lf", oflags=RD | O["NOFOLLOW"], **A),
                             dict(op="open", path="f", oflags=O["RDWR"] | O["APPEND"], **A), dict(op="open", path="p", oflags=RD, **A),
                             dict(op="open", path="f", oflags=O["CREAT"] | O["RDWR"], **A)])
+        # the caller passes one of the flags the library adds itself (O_CLOEXEC, O_NOCTTY): the other one must still be added
+        NC, CE = O["NOCTTY"], O["CLOEXEC"]
+        add("open-callerflags-" + api, [dict(op="open", path="f", oflags=RD | NC, **A), dict(op="open", path="f", oflags=RD | CE, **A), dict(op="open", path="a/sub/f", oflags=O["RDWR"] | NC | CE, **A),
+                                        dict(op="open", path="la", oflags=RD | O["DIRECTORY"] | CE, **A), dict(op="open", path="f", oflags=O["PATH"] | CE, **A),
+                                        dict(op="create_file", path="a/cfn", oflags=O["RDWR"] | NC, mode=0o600, **A), dict(op="create_file", path="a/cfc", oflags=O["RDWR"] | CE, mode=0o600, **A),
+                                        dict(op="resolve", path="f", **A), dict(op="reopen", of=7, oflags=RD | NC, **A), dict(op="reopen", of=7, oflags=O["RDWR"] | CE, **A)])
+        add("proc-callerflags-" + api, ([dict(op="proc_new")] if api == "rust" else []) + [
+            dict(op="proc_open", base="self", cbase=0x091D5E1F, path="status", oflags=RD | O["NOFOLLOW"] | NC, **A), dict(op="proc_open", base="self", cbase=0x091D5E1F, path="status", oflags=RD | O["NOFOLLOW"] | CE, **A),
+            dict(op="proc_open" if api == "c" else "proc_open_follow", base="self", cbase=0x091D5E1F, path="exe", oflags=O["PATH"] | CE, **A),
+            dict(op="proc_open" if api == "c" else "proc_open_follow", base="self", cbase=0x091D5E1F, path="cwd", oflags=RD | O["DIRECTORY"] | NC, **A)])
         add("readlink-" + api, [dict(op="readlink", path="la", **A), dict(op="readlink", path="f", **A), dict(op="readlink", path="d_full/l", **A)])
         add("create-" + api, [dict(op="create", path="a/newf", kind="file", mode=0o644, **A), dict(op="create", path="a/newd", kind="dir", mode=0o755, **A),
                               dict(op="create", path="a/newl", kind="lnk", target="../f", **A), dict(op="create", path="a/newh", kind="hard", target="f", **A),
